@@ -29,9 +29,11 @@ ASSUMPTIONS = [
     'and optimiser findings (C01/C03) do not mask path convergence; the '
     'full mutation space is covered by C01-C03',
 ]
-FLOORS = {'quick': {'nontrivial': 10, 'paths_compared': 30,
+FLOORS = {'quick': {'decoy_runs': 20, 
+                    'nontrivial': 10, 'paths_compared': 30,
                     'noop_reruns': 20},
-          'thorough': {'nontrivial': 120, 'paths_compared': 400,
+          'thorough': {'decoy_runs': 100, 
+                       'nontrivial': 120, 'paths_compared': 400,
                        'noop_reruns': 300}}
 SIZES = {'quick': 24, 'thorough': 240}
 TIMEOUT = {'quick': 170, 'thorough': 1700}
